@@ -2,6 +2,7 @@
   C05 — each validated file version is delivered exactly once (receiver part).
 -/
 import StsModel.Lemmas.StageOnce
+import StsModel.Lemmas.StageOrig
 
 namespace Sts.Stage
 
@@ -196,7 +197,7 @@ theorem onceInv_run (hashOf : Name → String) (H : Body → String) :
    without crash events and without `.corrupt`, in which all `record` events of a name carry
    one hash, the receive log has at most one record per name. As stated it is FALSE in the
    model, because `OpEv.recover` may occur in the middle of a run (witness
-   `log_twice_with_midrun_recover` below). Proved with the extra hypothesis "no `recover`
+   `log_twice_with_midrun_recover_orig` below, about the code as found). Proved with the extra hypothesis "no `recover`
    event" (`Recover()` runs only at start-up in the code); the hypothesis "no `.corrupt`" is
    not needed. -/
 
@@ -286,16 +287,57 @@ def exMidRecover : List Ev := [
   .op (.recover 0 ["n"]),                        -- companion + `.full`: state finalized -> received -> validated
   .op (.finh "n" 0)]                             -- delivered and logged a second time
 
-/-- **witness**: `log_once` without the hypothesis "no mid-run `Recover()`" is false in the
-    model: no crash, no `.corrupt`, one hash per name — and two log records (and two
+/-- **witness (code as found)**: with `Recover()` as it was before `fix:` "Recover validated,
+    logged and delivered again a duplicate of a version that is already in the receive log"
+    (`runEvsOrig`, Lemmas/StageOrig), `log_once` without the hypothesis "no mid-run `Recover()`"
+    is false: no crash, no `.corrupt`, one hash per name — and two log records (and two
     deliveries) of `n`. -/
-theorem log_twice_with_midrun_recover :
+theorem log_twice_with_midrun_recover_orig :
     exMidRecover.all (fun ev => match ev with
       | .op (.corrupt _ _ _ _) => false
       | .op (.record _ m _ _ _) => m.hash == "h"
       | .op _ => true
       | _ => false) = true ∧
-    ((runEvs exHb init exMidRecover).disk.log.filter (·.name = "n")).length = 2 := by
+    ((runEvsOrig exHb init exMidRecover).disk.log.filter (·.name = "n")).length = 2 := by
   constructor <;> decide
+
+/-- … and after the repair the same run logs `n` once: the third `Recover()` finds the cache
+    entry finalized with the companion's hash and drops the staged duplicate (`<n>.full` and
+    its companion) instead of validating it again. (Whether "no mid-run `Recover()`" can now be
+    dropped from `log_once_partial` is open: this witness is gone, no other was found, the
+    invariant `OnceInv` has not been extended to `Recover`.) -/
+theorem midrun_recover_logs_once_after_repair :
+    ((runEvs exHb init exMidRecover).disk.log.filter (·.name = "n")).length = 1 ∧
+    (runEvs exHb init (exMidRecover.take 20)).disk.full "n" = none ∧
+    (runEvs exHb init (exMidRecover.take 20)).disk.cmp "n" = none ∧
+    stateOf (runEvs exHb init (exMidRecover.take 20)).mem "n" = some .finalized := by decide
+
+/-! ### the second repaired defect: buildCache kept the oldest record of a name -/
+
+/-- version "h" of `n` is delivered, then version "x" (bytes [3, 4]); the receiver restarts
+    (no companion is staged: Recover only builds the cache); the sender, whose last
+    acknowledgement was lost, sends version "x" again, completely. -/
+def exRestartResend : List Ev := [
+  .op (.prepare "n" 2 0), .op (.recvOpen 1 "n"), .op (.recvWrite 1 0 [1, 2] 0),
+  .op (.record "n" ⟨"", "", 2, "h"⟩ 0 2 0), .op (.process "n" 0), .op (.finh "n" 0),
+  .op (.prepare "n" 2 1), .op (.recvOpen 2 "n"), .op (.recvWrite 2 0 [3, 4] 1),
+  .op (.record "n" ⟨"", "", 2, "x"⟩ 0 2 1), .op (.process "n" 1), .op (.finh "n" 1),
+  .crash, .op (.recover 5 []),
+  .op (.prepare "n" 2 6), .op (.recvOpen 3 "n"), .op (.recvWrite 3 0 [3, 4] 6),
+  .op (.record "n" ⟨"", "", 2, "x"⟩ 0 2 6), .op (.process "n" 7), .op (.finh "n" 7)]
+
+/-- **witness (buildCache as found, `runEvsG true false`)**: after the restart the cache described
+    the OLDEST delivered version of `n` (the first record of a name won in buildCache), so the
+    retransmission of the latest version "x" was not recognised as a duplicate by Receive:
+    it was validated, logged and delivered a second time (three log lines). After `fix:`
+    "buildCache kept the oldest of several records of a name" the cache says "x", the duplicate
+    branch of Receive drops the copy, and the log keeps its two lines. -/
+theorem restart_forgets_latest_version_orig :
+    ((runEvsG true false exHb init exRestartResend).disk.log.map (·.hash)) = ["h", "x", "x"] ∧
+    ((runEvs exHb init exRestartResend).disk.log.map (·.hash)) = ["h", "x"] ∧
+    ((runEvs exHb init (exRestartResend.take 14)).mem.cache "n").map (fun e => (e.state, e.hash))
+      = some (.logged, "x") ∧
+    (runEvs exHb init exRestartResend).disk.part "n" = none ∧
+    (runEvs exHb init exRestartResend).disk.cmp "n" = none := by decide
 
 end Sts.Stage
